@@ -261,15 +261,10 @@ def run(ctx):
     for nm in ("_to_ugly_xml", "_to_pretty_xml"):
         fn = scls.methods[nm]
         r4.check(any(isinstance(c, ast.Call) and norm(c.func) == "self.xml" for c in walk_own(fn.node)), f"Survey.{nm}", "serialiser obtains the tree from self.xml() (which validates)", fn.loc())
-    sval = scls.methods["validate"]
-    _must_call(r4, sval, ["super().validate", "self._validate_uniqueness_of_section_names"], "Survey.validate")
-    secv = repo.cls("pyxform.section:Section").methods["validate"]
-    _must_call(r4, secv, ["super().validate", "self._validate_uniqueness_of_element_names"], "Section.validate")
-    loops = [x for x in walk_own(secv.node) if isinstance(x, ast.For) and norm(x.iter) == "self.children"
-             and any(isinstance(c, ast.Call) and call_name(c) == "validate" and isinstance(c.func, ast.Attribute)
-                     and isinstance(c.func.value, ast.Name) and c.func.value.id == norm(x.target) for c in ast.walk(x))]
-    r4.check(len(loops) == 1 and not any(isinstance(n, ast.Break | ast.Continue | ast.If) for n in ast.walk(loops[0])) if loops else False,
-             "Section.validate:children", "validates every child unconditionally (recursion over the whole tree)", secv.loc())
+    # what validate() rejects, decided on whole trees with the real methods (however the checks are distributed over
+    # Survey / Section / SurveyElement): invalid names at every depth and of every kind, sibling duplicates, section-name
+    # clashes; a valid tree is accepted
+    tree_validation_obligations(ctx, r4, "C02.R4")
     # Option/Tag opt out of name validation; they are never used as instance node names (R2) -- recorded
     # name validator raises on an invalid XML name
     sev = se.methods["validate"]
@@ -314,9 +309,9 @@ def run(ctx):
             except Raised as r:
                 raised = "PyXFormError" in r.mro
             r4.check(raised == expect, f"sibling-uniqueness[{k1} {n1!r} + {k2} {n2!r}]", "a name shared by two siblings of any kind is rejected; distinct names are accepted", sib.loc())
-    secn = scls.methods["_validate_uniqueness_of_section_names"]
-    for desc, names, expect in (("two sections same name", ["data", "g", "g"], True), ("section named like the form", ["data", "data"], True),
-                                ("distinct", ["data", "g", "h"], False)):
+    secn = scls.methods.get("_validate_uniqueness_of_section_names")
+    for desc, names, expect in ((("two sections same name", ["data", "g", "g"], True), ("section named like the form", ["data", "data"], True),
+                                 ("distinct", ["data", "g", "h"], False)) if secn is not None else ()):
         it = ctx.interp("C02.R4", hooks={"fnname:iter_descendants": lambda i, a, k, n, names=names: [Obj(None, {"name": x}, name=x) for x in names]})
         it.reset([])
         o = Obj(scls, {"name": "data"}, name="survey")
@@ -406,6 +401,48 @@ def run(ctx):
     rules.append(tree_agreement_rule(ctx, "C02", "C02.R7"))
     rules.append(_fresh_elements_rule(ctx))
     return rules
+
+
+VALIDATION_TREES = [
+    ("valid tree", ("data", [("q", "a"), ("g", "g1", [("q", "b"), ("r", "r1", [("q", "c")])]), ("g", "g2", [("q", "b2")])]), False),
+    ("question with an invalid name in a nested group", ("data", [("g", "g1", [("g", "g2", [("q", "1q")])])]), True),
+    ("question whose name has a space, in a repeat", ("data", [("r", "r1", [("q", "a b")])]), True),
+    ("group with an invalid name", ("data", [("q", "a"), ("g", "1", [("q", "b")])]), True),
+    ("nested group with an invalid name", ("data", [("g", "g1", [("g", "first one", [("q", "b")])])]), True),
+    ("repeat with an invalid name", ("data", [("r", "r%1", [("q", "b")])]), True),
+    ("duplicate sibling questions in a nested group", ("data", [("g", "g1", [("q", "a"), ("q", "a")])]), True),
+    ("case-different sibling questions", ("data", [("g", "g1", [("q", "Age"), ("q", "age")])]), True),
+    ("non-adjacent duplicate siblings", ("data", [("r", "r1", [("q", "a"), ("q", "b"), ("q", "a")])]), True),
+    ("question and group with one name as siblings", ("data", [("g", "g1", [("q", "x"), ("g", "x", [("q", "y")])])]), True),
+    ("two sections with one name under different parents", ("data", [("g", "a", [("g", "dup", [("q", "p")])]), ("g", "b", [("g", "dup", [("q", "p2")])])]), True),
+    ("section named like the form", ("data", [("g", "data", [("q", "p")])]), True),
+    ("same question name in two groups (allowed)", ("data", [("g", "a", [("q", "p")]), ("g", "b", [("q", "p")])]), False),
+]
+
+
+def tree_validation_obligations(ctx, rule, rid):
+    from .. import trees
+    scls = ctx.repo.cls("pyxform.survey:Survey")
+    val = scls.methods["validate"]
+    for desc, spec, reject in VALIDATION_TREES:
+        survey, _by, _all = trees.build(ctx, spec, {"id_string": "form_id"})
+        it = ctx.interp(rid)
+        it.reset([])
+        try:
+            it.call_function(val, [survey], {}, None, val.node)
+            got = "accepted"
+        except Raised as e:
+            got = "rejected" if "PyXFormError" in e.mro else f"raises {e.exc_name}{e.exc_args}"
+        rule.check(got == ("rejected" if reject else "accepted"), f"Survey.validate[{desc}]", "rejected with PyXFormError" if reject else "accepted", val.loc(), why_fail=got[:160])
+    survey, _by, _all = trees.build(ctx, ("data", [("q", "a")]), {"id_string": None})
+    it = ctx.interp(rid)
+    it.reset([])
+    try:
+        it.call_function(val, [survey], {}, None, val.node)
+        got = "accepted"
+    except Raised as e:
+        got = "rejected" if "PyXFormError" in e.mro else f"raises {e.exc_name}"
+    rule.check(got == "rejected", "Survey.validate[no id_string]", "rejected with PyXFormError", val.loc(), why_fail=got)
 
 
 def _fresh_elements_rule(ctx):
